@@ -144,6 +144,33 @@ Proof.
   apply close_all_no_socket; auto. apply shell_step_at_rest. exact Hq.
 Qed.
 
+(** The configuration path (udp.rs [apply_cluster] / [cluster_config_for] / [apply_udp_knobs]): an AddCluster
+    WITHOUT a udp block clears whatever block an earlier AddCluster cached: the manager gets the listener's
+    timeouts and the proto defaults (SOURCE_IP affinity, no caps, no PROXY header). *)
+Theorem reconfigure_without_udp_block_restores_defaults :
+  forall cluster front back old,
+    cluster_config_for cluster front back (apply_cluster_cache old None) =
+    mkcfg cluster false 0 0 front back false false.
+Proof. reflexivity. Qed.
+
+(** ... and the flows admitted after a SetCluster are keyed and configured by THAT configuration (flows admitted
+    before keep theirs: [Inv], clause own key). *)
+Theorem affinity_follows_current_config :
+  forall hash m now c src p, Inv m ->
+    let m1 := fst (step hash m now (ISetCluster c)) in
+    (N.of_nat (length p) <= m_max_rx m1)%N -> c_cluster c <> [] -> p <> [] ->
+    tget (m_table m1) (key_of src (c_with_port c)) = None ->
+    m_draining m1 = false -> (N.of_nat (slen (m_flows m1)) < m_max_flows m1)%N ->
+    exists f, sget (m_flows (fst (step hash m1 now (IClient src p)))) (s_next (m_flows m1)) = Some f /\
+              f_cfg f = c /\ own_key f = key_of src (c_with_port c).
+Proof.
+  intros hash m now c src p HI m1 Hlen Hcl Hp Ht Hd Hcap.
+  assert (Inv m1) as HI1 by (apply step_inv; exact HI).
+  assert (m_cluster m1 = c) as Ec by reflexivity.
+  destruct (admission_buffers hash m1 now src p HI1 Hlen) as (Hf & _); auto; try (rewrite Ec; assumption).
+  exists (admit_flow m1 src p now). split; [exact Hf|]. split; reflexivity.
+Qed.
+
 (** [WriteQueue]: one drain puts on the wire an in-order, duplicate-free selection
     of a prefix of the queue (hard errors drop, the first WouldBlock stops) and
     leaves the rest, in order, for the next writable event; [push] only appends. *)
